@@ -337,13 +337,17 @@ func positive(s sink.Sink, em *childrun.Emitter, rng *rand.Rand, sample bool) {
 		}
 		report(prop, compareOpening(kind, prop, A, B, ch, chB))
 	case "nonce-differential":
-		// same proposal twice with one side's nonce share changed: the ID must change
+		// the same proposal between the same parties twice, with one side's nonce share changed:
+		// the ID must change. Each round runs in a world of its own built from the same seed (same
+		// keys, addresses and assets), so that an unchanged ID shows as such and not as a refusal
+		// to open the same channel twice.
 		var shareP, shareQ1, shareQ2 client.NonceShare
 		rng.Read(shareP[:])
 		rng.Read(shareQ1[:])
 		shareQ2 = shareQ1
 		shareQ2[rng.Intn(32)] ^= 1 << uint(rng.Intn(8))
 		changeProposer := rng.Intn(2) == 0
+		worldSeed, nAssets, noise := rng.Int63(), 1+rng.Intn(3), rng.Intn(5)
 		var ids []channel.ID
 		var props []client.ChannelProposal
 		for round := 0; round < 2; round++ {
@@ -355,17 +359,22 @@ func positive(s sink.Sink, em *childrun.Emitter, rng *rand.Rand, sample bool) {
 					sq = shareQ2
 				}
 			}
+			w2 := party.NewWorld(rand.New(rand.NewSource(worldSeed)), nAssets, noise)
+			A2, B2 := w2.NewParty("A", 100000), w2.NewParty("B", 100000)
 			// the responder's share is chosen by the harness through its accept message
-			B.SetAcceptNonce(&sq)
+			B2.SetAcceptNonce(&sq)
 			r2 := rand.New(rand.NewSource(42)) // identical proposals apart from the nonce share
-			prop := ledgerProposal(r2, w, A, B, false, client.WithNonce(sp))
-			ch, err := propose(A, prop)
+			prop := ledgerProposal(r2, w2, A2, B2, false, client.WithNonce(sp))
+			ch, err := propose(A2, prop)
 			if err != nil {
+				w2.Close()
 				s.Inconclusive("ledger opening failed: " + err.Error())
 				return
 			}
+			B2.AwaitChannel(ch.ID())
 			ids = append(ids, ch.ID())
 			props = append(props, prop)
+			w2.Close()
 		}
 		var pr []string
 		if ids[0] == ids[1] {
